@@ -391,20 +391,28 @@ class WorkerPool:
             self._perform_spawn(reply)
             # we are concurrent with trigger_shutdown and spawn
             with self._running_lock:
-                if self._shuttingdown:
-                    break
-                # Only clear if _try_send_to_primary_thread has not
-                # yet set the next self._primary_thread_task reply
-                # after waiting for this one to complete.
+                # Only leave or clear if _try_send_to_primary_thread has
+                # not yet set the next self._primary_thread_task reply
+                # after waiting for this one to complete: a task that
+                # spawn() accepted must still be executed.
                 if reply is self._primary_thread_task:
+                    if self._shuttingdown:
+                        break
                     primary_thread_task_ready.clear()
 
     def trigger_shutdown(self) -> None:
         with self._running_lock:
             self._shuttingdown = True
-            if self._primary_thread_task_ready is not None:
+            primary_thread_task_ready = self._primary_thread_task_ready
+            # A set event means the primary thread has a task pending or in
+            # progress: do not overwrite it, the primary thread checks
+            # _shuttingdown itself once that task has finished.
+            if (
+                primary_thread_task_ready is not None
+                and not primary_thread_task_ready.is_set()
+            ):
                 self._primary_thread_task = None
-                self._primary_thread_task_ready.set()
+                primary_thread_task_ready.set()
 
     def active_count(self) -> int:
         return len(self._running)
